@@ -388,6 +388,31 @@ def rec_rules(chk, ctx):
                     visit(st_.body, innermost)
         visit(fn_.body, False)
         return out
+    # internal asserts of the tabulated planner: `assert schedule[a, b, 2] > 0` must speak about an entry that the candidate
+    # computed next reads (those entries are filled; any other entry may still hold the initial -1 and the planner would
+    # raise AssertionError where the memoised one returns)
+    k_a = 0
+    for blk in [x for x in ast.walk(tab) if isinstance(x, (ast.For, ast.If, ast.FunctionDef))]:
+        body = blk.body + (getattr(blk, "orelse", []) or [])
+        for i_, st_ in enumerate(body):
+            if not (isinstance(st_, ast.Assert) and isinstance(st_.test, ast.Compare) and isinstance(st_.test.left, ast.Subscript)
+                    and isinstance(st_.test.left.value, ast.Name) and st_.test.left.value.id == "schedule"
+                    and isinstance(st_.test.left.slice, ast.Tuple) and len(st_.test.left.slice.elts) == 3):
+                continue
+            nxt = next((b_ for b_ in body[i_ + 1:] if isinstance(b_, ast.Assign)), None)
+            if nxt is None:
+                continue
+            pbq = PolyBuilder(None, {"n_i": "n", "s_i": "s"})
+            key = tuple(pkey(pbq.poly(e)) for e in st_.test.left.slice.elts[:2])
+            reads = {tuple(pkey(pbq.poly(e)) for e in x.slice.elts[:2]) for x in ast.walk(nxt.value)
+                     if isinstance(x, ast.Subscript) and isinstance(x.value, ast.Name) and x.value.id == "schedule"
+                     and isinstance(x.slice, ast.Tuple) and len(x.slice.elts) == 3}
+            if reads:
+                chk.decide("C16.REC", f"mixed.{TAB}#assert[{k_a}]", True if key in reads else False,
+                           f"`{ast.unparse(st_.test)}` " + ("asserts on an entry the next candidate reads" if key in reads else
+                           f"asserts on an entry the recurrence does not read ({ast.unparse(nxt.value)[:80]}): it may be unset or out of "
+                           "range, the tabulated planner raises where the memoised one returns"), rel=REL, node=st_, nontrivial=False)
+                k_a += 1
     am, at = acceptance(memo), acceptance(tab)
     sig = lambda a: [(x[0], x[1]) for x in a]
     if am and at:
